@@ -441,7 +441,7 @@ class BoundedCtx:
         for fl in failures:
             m = None
             for f in self.findings:
-                if f["match"] == name and resolve_ref(f["region"])(fl):
+                if (f["match"] == name or re.fullmatch(f["match"], name)) and resolve_ref(f["region"])(fl):
                     m = f
                     break
             if m is None:
